@@ -90,15 +90,31 @@ func fatalFunc(stderr string) (fn, reason string) {
 	if idx < 0 {
 		return "unknown", reason
 	}
+	var frames []string
 	for _, l := range strings.Split(stderr[idx:], "\n") {
 		if strings.HasPrefix(l, libPrefix) {
 			if p := strings.LastIndex(l, "("); p > 0 {
 				l = l[:p]
 			}
-			return shortFunc(l), reason
+			frames = append(frames, shortFunc(l))
 		}
 	}
-	return "unknown", reason
+	if len(frames) == 0 {
+		return "unknown", reason
+	}
+	if strings.Contains(reason, "stack overflow") {
+		// the function that recurses: the most frequent library frame of the dump
+		count := map[string]int{}
+		best := frames[0]
+		for _, f := range frames {
+			count[f]++
+			if count[f] > count[best] {
+				best = f
+			}
+		}
+		return best, reason
+	}
+	return frames[0], reason
 }
 
 type childResult struct {
@@ -256,6 +272,9 @@ func superviseRecords(recs []json.RawMessage, cmd string, par int) ([]hx.Result,
 	if chunk > 4000 {
 		chunk = 4000
 	}
+	if isolate {
+		chunk = 1 // every record alone in a fresh process
+	}
 	type job struct{ from, to int }
 	jobs := make(chan job, len(recs)/chunk+2)
 	for f := 0; f < len(recs); f += chunk {
@@ -307,10 +326,14 @@ func superviseRecords(recs []json.RawMessage, cmd string, par int) ([]hx.Result,
 	return results, nil
 }
 
+// isolate: -mode isolate runs every record alone in its own fresh worker process (reproduction of findings).
+var isolate bool
+
 func replayCmd(a *hx.Args) error {
 	if a.Mode == "worker" {
 		return workerLoop(execRecord)
 	}
+	isolate = a.Mode == "isolate"
 	return supervise(a, "c18")
 }
 
@@ -322,7 +345,7 @@ func selfCmd(a *hx.Args) error {
 	i := 0
 	for _, ver := range AllVersions {
 		for _, typ := range SubjectTypes {
-			r := rec{Fam: "event", Ver: ver, Type: typ, P1: "none", P2: "none", Must: true,
+			r := rec{Fam: "event", Ver: ver, Type: typ, P1: "none", P2: "none", PV: "must",
 				Ops: []string{"Parse:untrusted", "AuthCheck:event"}}
 			b, _ := json.Marshal(r)
 			res := protected("self-test", func() hx.Result { return execRecord(i, b) })
@@ -337,6 +360,16 @@ func selfCmd(a *hx.Args) error {
 			_ = enc.Encode(&res)
 			i++
 		}
+		// PerformJoin with well-formed make_join / send_join answers must succeed
+		r := rec{Fam: "join", Ver: ver, Type: "join", P1: "none", P2: "none", C2: "echo", PV: "may", Ops: []string{"Body:PerformJoin"}}
+		b, _ := json.Marshal(r)
+		res := protected("self-test", func() hx.Result { return execRecord(i, b) })
+		res.I = i
+		if !strings.HasSuffix(res.NT, "|ok") {
+			res.Extra = resultExtra{Machine: fmt.Sprintf("PerformJoin with well-formed answers fails in room version %s: %s", ver, res.NT)}
+		}
+		_ = enc.Encode(&res)
+		i++
 	}
 	return nil
 }
